@@ -98,8 +98,11 @@ Definition py_nat (l : bytes) : option N :=
   | c :: _ => if is_digit c then digits_us 0 false l else None
   | [] => None
   end.
+(* int() strips TAB LF VT FF CR SP NEL NBSP - not FS GS RS US *)
+Definition is_int_space (c : N) : bool :=
+  ((9 <=? c) && (c <=? 13)) || (c =? 32) || (c =? 133) || (c =? 160).
 Definition py_int_l1 (l : bytes) : option Z :=
-  match strip is_py_space l with
+  match strip is_int_space l with
   | [] => None
   | c :: t => if c =? 43 then option_map Z.of_N (py_nat t)
               else if c =? 45 then option_map (fun n => Z.opp (Z.of_N n)) (py_nat t)
